@@ -4,6 +4,7 @@ import Cuke.Props.C06
 import Cuke.Props.C05
 import Cuke.Lemmas.SchedConserve
 import Cuke.Lemmas.SchedSpin
+import Cuke.Lemmas.SchedBound
 /-!
 # C04 — Every supplied scenario runs, nothing else runs, and the run always terminates
 Model: `Cuke.newEntries`, `Cuke.insertInitial`, `Cuke.getBatch`, `Cuke.isFinished` and the idle branch
@@ -322,6 +323,37 @@ example :
       .idle false false, .idleYield, .poll, .idleContinue, .get1 3 (some 64) 0 0, .get2 4 (.cont (some 64)) [] false 0]
     SchedOrd.Clean0 (accept spinCfg ls) = true ∧ ls.countP SchedSpin.isGet2 = 2 ∧ ls.countP SchedSpin.isPoll = 1 ∧
       ls.countP SchedSpin.isIdleContinue = 1 := by
+  decide +kernel
+
+/-! ## Termination in one statement -/
+
+open Cuke.SchedSpin Cuke.SchedSeq Cuke.SchedCount in
+/-- **Every attempt that ended was dispatched**: in a run clean in both acceptor layers, `#END + #in flight = #dispatched`. -/
+theorem lts_ended_le_dispatched (c : SCfg) (ls : List Label) (hc : NClean (acceptN c ls) = true) :
+    ls.countP isEndA + (accept c ls).running.length = (dispatched c ls).length :=
+  Cuke.SchedBound.ended_le_dispatched c ls hc
+
+open Cuke.SchedSpin Cuke.SchedSeq Cuke.SchedCount in
+/-- **The loop of `execute` goes round at most `1 + polls + scenarios × (N + 1)` times** — for every configuration with
+    retry budgets ≤ N and every log, of any length, replayed without a disagreement: apart from a number of iterations
+    that is fixed BEFORE the run starts (one per attempt that can ever exist, plus one), the loop only goes round again
+    after the stream returned `Pending` and was polled again — i.e. after the executor gave the parser, a sleeper or
+    user code a turn. So the stream ends after finitely many polls once those have completed, and it never spins. -/
+theorem lts_iterations_bounded_before_the_run (c : SCfg) (hwf : WF c) (ls : List Label)
+    (hc : NClean (acceptN c ls) = true) (N : Nat)
+    (hbud : ∀ ft ∈ c.feats, ∀ e0 ∈ newEntries c ft, ∀ o0, e0.ret = some o0 → o0.retries.left ≤ N) :
+    ls.countP isGet2 ≤ 1 + ls.countP isPoll + (allScens c).length * (N + 1) := by
+  have hc0 : SchedOrd.Clean0 (accept c ls) = true := by
+    simp only [NClean, Bool.and_eq_true] at hc
+    have := hc.1
+    rwa [acceptN_base] at this
+  have h1 := lts_loop_iterations_bounded c ls hc0
+  have h2 := lts_ended_le_dispatched c ls hc
+  have h3 := lts_total_attempts_bounded c hwf ls hc N hbud
+  omega
+
+/-- non-vacuity: `C05.rlog` (one scenario, budget 2): 3 iterations, no poll, bound 1 + 0 + 1 × 3 -/
+example : (Cuke.C05.rlog.countP SchedSpin.isGet2, Cuke.C05.rlog.countP SchedSpin.isPoll, (allScens Cuke.C05.rcfg).length) = (3, 0, 1) := by
   decide +kernel
 
 end Cuke.C04
